@@ -1,2 +1,5 @@
 pub(crate) mod dates;
 pub(crate) mod range;
+
+#[cfg(ohrs_verif_loom)]
+pub(crate) mod verif_sync;
